@@ -113,6 +113,8 @@ type FuncContract struct {
 	Absolute  bool
 	DefPkg    string
 	GhostUpd  []GhostUpdate
+	SplitForall bool   // splitforall: prove `forall x :: A && B` as one obligation per conjunct
+	Hide      []string // hide FAMILY: axiom families (e.g. card) left out of this function's queries
 	Invokes   []Invoke // invokes PARAM(NAME) [init G := E; ...]: the callee runs the closure passed as PARAM once, on a fresh object NAME
 	GhostSrc  []string
 	Trusts    []Clause
@@ -152,7 +154,7 @@ func newContractSet(pkg string) *ContractSet {
 	return &ContractSet{PkgPath: pkg, Preds: map[string]*PredDef{}, Fns: map[string]*SpecFn{}, Funcs: map[string]*FuncContract{}}
 }
 
-var clauseKW = map[string]bool{"invokes": true, "ghost": true, "pred": true, "fn": true, "axiom": true, "lemmadef": true, "onwrite": true, "onsend": true,
+var clauseKW = map[string]bool{"invokes": true, "hide": true, "splitforall": true, "ghost": true, "pred": true, "fn": true, "axiom": true, "lemmadef": true, "onwrite": true, "onsend": true,
 	"opaque": true, "transparent": true, "lenient": true, "callsite": true, "func": true, "params": true, "requires": true, "ensures": true, "modifies": true, "loop": true, "use": true,
 	"inline": true, "assumed": true, "overflow": true, "safety": true, "pure": true, "effect": true, "watch": true, "trusts": true}
 
@@ -432,6 +434,10 @@ func loadContractFile(path string, prefixed bool, pkgPath string) (*ContractSet,
 					return nil, fmt.Errorf("%s: %v", where, err)
 				}
 				cur.LoopInv[n] = append(cur.LoopInv[n], Clause{e, src, rc.line})
+			case "splitforall":
+				cur.SplitForall = true
+			case "hide":
+				cur.Hide = append(cur.Hide, strings.Fields(rc.text)...)
 			case "invokes":
 				txt := rc.text
 				var init []GhostUpdate
